@@ -115,6 +115,81 @@ def isotropicEof (v1 v2 : α → α) (four : α) (d : Nat) (al : α) : α :=
 
 end measures
 
+/-! ### closed-form values on the entangled branch and the documented parameter ranges
+
+`sqrt`, `log` are `np.sqrt`, `np.log` (natural logarithm); `entr` is `scipy.special.entr` on `x ≥ 0`. -/
+
+section values
+variable {α : Type} [Add α] [Sub α] [Mul α] [Neg α] [Div α] [Zero α] [One α] [NatCast α]
+  [LT α] [LE α] [DecidableRel (α := α) (· < ·)] [DecidableRel (α := α) (· ≤ ·)]
+
+/-- `entr(x) = -x log x` for `x > 0`, `0` at `x = 0` (negative arguments do not occur on the documented ranges) -/
+def entr (log : α → α) (x : α) : α := if 0 < x then -(x * log x) else 0
+
+/-- binary entropy in nats, `entr(t) + entr(1-t)` -/
+def entropy2 (log : α → α) (t : α) : α := entr log t + entr log (1 - t)
+
+/-- entangled branch of `get_Werner_eof` (`_internal.py:208-209`): `t = (1-√(1-a²))/2`, `h₂(t)` -/
+def wernerEofVal (sqrt log : α → α) (two : α) (a : α) : α := entropy2 log ((1 - sqrt (1 - a * a)) / two)
+
+/-- `get_Werner_eof` with its value -/
+def wernerEofFull (sqrt log : α → α) (two : α) (d : Nat) (al : α) : α := wernerEof (wernerEofVal sqrt log two) d al
+
+/-- first entangled branch of `get_Isotropic_eof` (`_internal.py:298-301`): `γ = min((√F + √((d-1)(1-F)))²/d, 1)`,
+`h₂(γ) + (1-γ) log(d-1)` -/
+def isotropicEofV1 (sqrt log : α → α) (d : Nat) (F : α) : α :=
+  let s := sqrt F + sqrt (((d : α) - 1) * (1 - F))
+  let g0 := s * s / (d : α)
+  let g := if g0 < 1 then g0 else 1
+  entropy2 log g + (1 - g) * log ((d : α) - 1)
+
+/-- second branch (`_internal.py:304`): `d log(d-1) (F-1)/(d-2) + log d` -/
+def isotropicEofV2 (log : α → α) (two : α) (d : Nat) (F : α) : α :=
+  (d : α) * log ((d : α) - 1) * (F - 1) / ((d : α) - two) + log (d : α)
+
+def isotropicEofFull (sqrt log : α → α) (two four : α) (d : Nat) (al : α) : α :=
+  isotropicEof (isotropicEofV1 sqrt log d) (isotropicEofV2 log two d) four d al
+
+/-- eigenvalues of `Werner(d, a)`: `(1-a)/(d²-da)` on the symmetric subspace (dimension `d(d+1)/2`), `(1+a)/(d²-da)` on the
+antisymmetric one (dimension `d(d-1)/2`) -/
+def wernerEigSym (d : Nat) (a : α) : α := (1 - a) / ((d : α) * (d : α) - (d : α) * a)
+def wernerEigAnti (d : Nat) (a : α) : α := (1 + a) / ((d : α) * (d : α) - (d : α) * a)
+
+/-- `x (log x - log y)` with `0·log 0 = 0` -/
+def relTerm (log : α → α) (x y : α) : α := if 0 < x then x * (log x - log y) else 0
+
+/-- entangled branch of `get_Werner_ree` (`_internal.py:162-164`): relative entropy (nats) of `Werner(d,a)` with respect to the
+separable boundary state `Werner(d, 1/d)`; both commute, so it is a sum over the two eigenspaces -/
+def wernerReeVal (log : α → α) (two : α) (d : Nat) (a : α) : α :=
+  let ns := (d : α) * ((d : α) + 1) / two
+  let na := (d : α) * ((d : α) - 1) / two
+  ns * relTerm log (wernerEigSym d a) (wernerEigSym d (1 / (d : α)))
+    + na * relTerm log (wernerEigAnti d a) (wernerEigAnti d (1 / (d : α)))
+
+def wernerReeFull (log : α → α) (two : α) (d : Nat) (a : α) : α := wernerRee d a (wernerReeVal log two d a)
+
+/-- eigenvalues of `Isotropic(d, a)`: `(1-a)/d² + a` on `|Φ⟩` (multiplicity 1), `(1-a)/d²` elsewhere (multiplicity `d²-1`) -/
+def isotropicEigPhi (d : Nat) (a : α) : α := (1 - a) / ((d : α) * (d : α)) + a
+def isotropicEigRest (d : Nat) (a : α) : α := (1 - a) / ((d : α) * (d : α))
+
+/-- entangled branch of `get_Isotropic_ree` (`_internal.py:253-255`), reference state `Isotropic(d, 1/(d+1))` -/
+def isotropicReeVal (log : α → α) (d : Nat) (a : α) : α :=
+  relTerm log (isotropicEigPhi d a) (isotropicEigPhi d (1 / ((d : α) + 1)))
+    + ((d : α) * (d : α) - 1) * relTerm log (isotropicEigRest d a) (isotropicEigRest d (1 / ((d : α) + 1)))
+
+def isotropicReeFull (log : α → α) (d : Nat) (a : α) : α := isotropicRee d a (isotropicReeVal log d a)
+
+/-! (the entangled-branch values of `get_Werner_GME` / `get_Isotropic_GME` are already part of `wernerGME` / `isotropicGME`)
+
+documented parameter ranges (the `assert`s of the constructors), evaluated in the scalar type as the source does -/
+def wernerInRange (d : Nat) (a : α) : Bool := decide (1 < d) && decide (-1 ≤ a) && decide (a ≤ 1)
+def isotropicInRange (d : Nat) (a : α) : Bool :=
+  decide (1 < d) && decide (-1 / ((d : α) * (d : α) - 1) ≤ a) && decide (a ≤ 1)
+def unitInRange (b : α) : Bool := decide (0 ≤ b) && decide (b ≤ 1)
+def antoineInRange (c25 : α) (q : α) : Bool := decide (-c25 ≤ q) && decide (q ≤ c25)
+
+end values
+
 /-! ### kets with amplitudes `±√(rational)` -/
 
 /-- amplitude `sgn · √sq` -/
